@@ -482,7 +482,7 @@ def main(ctx):
     ctx.assumptions = ["GNU ld's direct link in the same effective object order defines the expected transcript",
                        "a grouping for which `ld -r` + ld is itself not transparent is inconclusive"]
     tools.wild()
-    n = ctx.pick(14, 300)
+    n = ctx.pick(14, 200)
     jobs = [("pin", 0)] + [("pinp", k) for k in PINNED] + [("p", i) for i in range(n)]
     if ctx.replay is not None:
         c = str(ctx.replay.get("case"))
